@@ -118,6 +118,12 @@ def execute(case):
         da = model.make_array(a["data"], nm, ds, name="v1")
         kw = model.call_kwargs(a, nm)
         bw = {nm(x): (lo, hi) for x, lo, hi in a["widths"]}
+        if case.get("id", 0) % 4 == 0:
+            # an earlier padding call on the same Grid (scalar, one cell on both face axes, another rule)
+            try:
+                pad(da + 1, grid, boundary_width={nm("a1"): (1, 1), nm("a2"): (1, 1)}, boundary="extend")
+            except Exception:
+                pass
         if a["vaxis"] != "none":
             oth = model.make_array(a["other"], nm, ds, name="v2")
             other_ax = "a2" if a["vaxis"] == "a1" else "a1"
